@@ -426,6 +426,11 @@ def check(ctx):
     c06.rule_sort_ownership(Renamed(ctx, {'*': 'R11'}))
     from . import c07
     c07.rule_pipeline(ctx, rid='R11')
+    # inputs that list their dimensions in another order are transposed first; align=True folds the common axis over all inputs (shared with C10 / C06)
+    from . import c10 as _c10
+    ctx.rule('R12', 'transpose keeps values and axes under one permutation (C10); _common_axis fold and placeholder test (C06)', 4)
+    _c10.rule_transpose(Renamed(ctx, {'*': 'R12'}))
+    c06.rule_fold(Renamed(ctx, {'*': 'R12'}))
     ctx.not_decided += ['slice-by-slice equality with the inputs', 'behaviour when the inputs have different *sets* of dimensions (NumPy raises)']
     ctx.trusted += ['np.array(list of arrays) stacks along a new first axis', 'np.concatenate semantics']
     return EXPLANATION
